@@ -297,11 +297,46 @@ def judge_headers(ctx, req, body, detail):
                       'keybindings in CIMObject header %r cannot be parsed: '
                       '%s' % (ho, exc), detail)
         return
-    if not parsed == t3:
+    if not paths_equal(parsed, t3):
         ctx.violation('header.CIMObject.keys-differ%s'
                       % uri_limit_tags(target),
                       'CIMObject header %r denotes keys %r, body denotes %r'
                       % (ho, parsed.keybindings, t3.keybindings), detail)
+
+
+def paths_equal(parsed, target):
+    """Equality of two instance paths as pywbem defines it, except that real
+    keys are compared as numbers of the target's width (an untyped URI
+    carries no width; NaN equals NaN here)."""
+    import math
+    if not isinstance(parsed, CIMInstanceName) or \
+            not isinstance(target, CIMInstanceName):
+        return parsed == target
+    if parsed.classname.lower() != target.classname.lower() or \
+            (parsed.namespace or '').lower() != \
+            (target.namespace or '').lower() or \
+            (parsed.host or '').lower() != (target.host or '').lower():
+        return False
+    pk = {k.lower(): v for k, v in parsed.keybindings.items()}
+    tk = {k.lower(): v for k, v in target.keybindings.items()}
+    if set(pk) != set(tk):
+        return False
+    for k, tv in tk.items():
+        pv = pk[k]
+        if isinstance(tv, CIMInstanceName):
+            if not paths_equal(pv, tv):
+                return False
+        elif isinstance(tv, (float, pywbem.CIMFloat)):
+            if not isinstance(pv, (float, int)) or isinstance(pv, bool):
+                return False
+            a, b = float(pv), float(tv)
+            if isinstance(tv, pywbem.Real32):
+                a, b = cimgen.f32(a), cimgen.f32(b)
+            if not (a == b or (math.isnan(a) and math.isnan(b))):
+                return False
+        elif not pv == tv:
+            return False
+    return True
 
 
 def uri_limit_tags(path):
